@@ -37,6 +37,27 @@ Proof.
   - apply equals_trans. exact Qeq_bool_laws.
 Qed.
 
+(** equality of variables depends only on the CONTENT of the units they hold (up to the order of the unit children),
+    not on who owns the units object *)
+Theorem units_ownership_irrelevant : forall neq, neq_laws neq ->
+  forall (v w : variable) (o1 o2 o1' o2' : ownership),
+    eq_owned_variable neq (v, o1) (w, o2) = eq_owned_variable neq (v, o1') (w, o2')
+    /\ (eq_owned_variable neq (v, o1) (w, o2) = true <->
+        v_name v = v_name w /\ v_id v = v_id w /\ v_init v = v_init w /\ v_iface v = v_iface w
+        /\ opt_rel (sim_units neq) (v_units v) (v_units w))
+    /\ (forall u u', v_units v = Some u -> sim_units neq u u' ->
+        eq_owned_variable neq ({| v_name := v_name v; v_id := v_id v; v_units := Some u'; v_init := v_init v; v_iface := v_iface v |}, o1') (w, o2)
+        = eq_owned_variable neq (v, o1) (w, o2)).
+Proof.
+  intros neq L v w o1 o2 o1' o2'. unfold eq_owned_variable. cbn [fst]. split; [reflexivity|]. split.
+  - apply (eq_variable_iff neq L).
+  - intros u u' Hu Hs. apply eq_true_iff_eq. rewrite !(eq_variable_iff neq L). unfold sim_variable. cbn. rewrite Hu.
+    destruct (v_units w) as [uw|]; cbn [opt_rel]; [|tauto].
+    split; intros (H1 & H2 & H3 & H4 & H5); refine (conj H1 (conj H2 (conj H3 (conj H4 _)))).
+    + exact (sim_units_trans neq L u u' uw Hs H5).
+    + exact (sim_units_trans neq L u' u uw (sim_units_sym neq L u u' Hs) H5).
+Qed.
+
 (** non-vacuity of the `_partial` theorems: the components all of whose sub-components hold exactly one
     variable form a domain for the code as it is now (flags_now), and it contains distinct, equal trees *)
 Definition one_var (c : component) : Prop :=
